@@ -96,16 +96,17 @@ theorem decVal_zeros : ∀ (s : List Nat), s.all (· = 48) = true → decVal s =
 /-- `detail::to_bigint`: a non-empty digit string becomes exactly its decimal value, as a normal word list;
     the sign flag is only ever set when asked for -/
 theorem ofDecimalDigits_ok (neg : Bool) (s : List Nat) (hne : s ≠ []) (h : AllDigits s) :
-    ∃ b, ofDecimalDigits neg s = some b ∧ val b.mag = decVal s ∧ Words b.mag ∧ (b.neg = true → neg = true) := by
+    ∃ b, ofDecimalDigits neg s = some b ∧ val b.mag = decVal s ∧ Words b.mag ∧ (b.neg = true → neg = true) ∧
+      (b.neg = neg ∨ decVal s = 0) := by
   unfold ofDecimalDigits
   rw [if_neg hne]
   by_cases hz : s.all (· = 48) = true
   · rw [if_pos hz]
-    exact ⟨ofWord 0, rfl, by simp [ofWord, val, (decVal_zeros s hz).1], by intro z hz; simp [ofWord] at hz, by simp [ofWord]⟩
+    exact ⟨ofWord 0, rfl, by simp [ofWord, val, (decVal_zeros s hz).1], by intro z hz; simp [ofWord] at hz, by simp [ofWord], Or.inr (decVal_zeros s hz).1⟩
   · rw [if_neg hz]
     obtain ⟨b, b1, b2, b3, b4⟩ := ofDecimalLoop_ok s (ofWord 0) h rfl (by intro z hz; simp [ofWord] at hz)
     rw [b1]
-    refine ⟨_, rfl, ?_, b3, fun h => h⟩
+    refine ⟨_, rfl, ?_, b3, fun h => h, Or.inl rfl⟩
     simp only [b4]
     simp [ofWord, val]
 
